@@ -190,7 +190,9 @@ def run(ctx: Ctx):
         ctx.violate(f"{m.get('op')} {m.get('pred', '')} width {m.get('width', '')}: on operands {inp} (bit patterns) the interpreter returned {c['got'][j-1]}: {clause}"
                     + (f"\n{m['text']}" if m.get("op") == "program" else ""),
                     {"clause": clause, "op": m.get("op"), "pred": m.get("pred", ""), "width": m.get("width", ""), "inputs": inp, "got": c["got"][j - 1],
-                     "program": m.get("text", "")}, clause=clause)
+                     "program": m.get("text", ""),
+                     "unsigned_cmpi": m.get("pred", "") in ("ult", "ule", "ugt", "uge") or any(f"cmpi {p}," in m.get("text", "") for p in ("ult", "ule", "ugt", "uge"))},
+                    clause=clause)
     ctx.coverage.update({"evaluations": sum(len(c["inputs"]) for c in cases), "distinct_nontrivial": sum(len(c["inputs"]) for c in cases[:n_tables]) + (len(cases) - n_tables),
                          "op_tables": n_tables, "programs": len(cases) - n_tables, "machine_states": res.states,
                          "rule": "every operand tuple for widths 1-4 and boundary/random tuples for 8..64/index, per arith op and predicate the interpreter implements; "
